@@ -344,6 +344,16 @@ fn minimise<H: Harness>(h: &H, case: H::Case, v: &Violation) -> (H::Case, Violat
     (cur, curv, execs)
 }
 
+/// Build configuration of the code under test in this binary (a configuration dimension of
+/// its own: `debug_assert!` and overflow checks exist only in one of them).
+pub fn build_config() -> &'static str {
+    if cfg!(debug_assertions) {
+        "optimised + debug-assertions + overflow-checks"
+    } else {
+        "release"
+    }
+}
+
 pub fn write_part(opts: &Opts, name: &str, part: &Value) {
     let _ = std::fs::create_dir_all(&opts.part_dir);
     let p = opts.part_dir.join(format!("{}.json", name));
@@ -749,6 +759,7 @@ pub fn search<H: Harness>(h: &H, opts: &Opts, wrap: &(dyn Fn(&mut (dyn FnMut() +
             "check": h.name(),
             "engine": h.engine(),
             "verif_seed": opts.seed,
+            "build": build_config(),
             "tier": opts.tier.as_str(),
             "case_index": idx,
             "case_seed": case_seed,
@@ -842,6 +853,7 @@ pub fn search<H: Harness>(h: &H, opts: &Opts, wrap: &(dyn Fn(&mut (dyn FnMut() +
     let part = json!({
         "check": h.name(),
         "property": h.property(),
+        "build": build_config(),
         "engine": h.engine(),
         "tier": opts.tier.as_str(),
         "seed": opts.seed,
